@@ -6,8 +6,14 @@
 package lockstep
 
 import (
+	"io/ioutil"
+	"os"
+	"reflect"
 	"sort"
 	"strings"
+
+	"github.com/meshplus/bitxhub-kit/types"
+	"github.com/meshplus/bitxhub-model/constant"
 
 	"github.com/meshplus/bitxhub-model/pb"
 	"github.com/meshplus/bitxhub/verifharness/core"
@@ -186,4 +192,80 @@ func (p *Pair) Exec(txs []pb.Transaction, descs []map[string]interface{}, timest
 	return map[string]interface{}{"ev": "Block", "h": int(res.Block.BlockHeader.Number), "hPrev": int(h0), "txs": descs,
 		"nrec": len(res.Receipts), "orderOK": orderOK, "failed": failedPos, "deliv": deliv, "counter": counter,
 		"attributable": p.Attr, "diff": diff, "allowed": allowed, "pre": preBal, "bal": postBal, "non": postNon, "negative": neg}, res
+}
+
+// ContractsByName: the built-in contracts under short names
+var ContractsByName = map[string]constant.BoltContractAddress{
+	"interchain": constant.InterchainContractAddr, "store": constant.StoreContractAddr, "rule": constant.RuleManagerContractAddr,
+	"role": constant.RoleContractAddr, "appchain": constant.AppchainMgrContractAddr, "txmgr": constant.TransactionMgrContractAddr,
+	"governance": constant.GovernanceContractAddr, "node": constant.NodeManagerContractAddr, "interbroker": constant.InterBrokerContractAddr,
+	"service": constant.ServiceMgrContractAddr, "dapp": constant.DappMgrContractAddr, "strategy": constant.ProposalStrategyMgrContractAddr,
+	"registry": constant.ServiceRegistryContractAddr, "resolver": constant.ServiceResolverContractAddr,
+}
+
+type MethodInfo struct {
+	C        string   `json:"c"`
+	M        string   `json:"m"`
+	In       []string `json:"in"`
+	Promoted bool     `json:"promoted"` // promoted from the embedded Stub or core manager, or not returning one *Response
+}
+
+// Surface enumerates the exported method surface of every registered contract by reflection on live objects
+func Surface() []MethodInfo {
+	dir, _ := ioutil.TempDir(os.Getenv("TMPDIR"), "surface-")
+	defer os.RemoveAll(dir)
+	n, err := core.NewNode(core.Options{Dir: dir, Seed: 1, Quiet: true})
+	if err != nil {
+		panic(err)
+	}
+	defer n.Close()
+	byAddr := map[string]string{}
+	for name, a := range ContractsByName {
+		byAddr[a.Address().String()] = name
+	}
+	var out []MethodInfo
+	for addr, c := range n.Exec.GetBoltContracts() {
+		name, ok := byAddr[types.NewAddressByStr(addr).String()]
+		if !ok {
+			continue
+		}
+		t := reflect.TypeOf(c)
+		// methods declared by the contract type itself (not promoted from embedded fields)
+		own := map[string]bool{}
+		et := t
+		if et.Kind() == reflect.Ptr {
+			et = et.Elem()
+		}
+		promoted := map[string]bool{}
+		for i := 0; i < et.NumField(); i++ {
+			f := et.Field(i)
+			if f.Anonymous {
+				ft := f.Type
+				for j := 0; j < ft.NumMethod(); j++ {
+					promoted[ft.Method(j).Name] = true
+				}
+				if ft.Kind() != reflect.Ptr && ft.Kind() != reflect.Interface {
+					pt := reflect.PtrTo(ft)
+					for j := 0; j < pt.NumMethod(); j++ {
+						promoted[pt.Method(j).Name] = true
+					}
+				}
+			}
+		}
+		_ = own
+		for i := 0; i < t.NumMethod(); i++ {
+			m := t.Method(i)
+			var in []string
+			for j := 1; j < m.Type.NumIn(); j++ {
+				in = append(in, m.Type.In(j).String())
+			}
+			if in == nil {
+				in = []string{}
+			}
+			resp := m.Type.NumOut() == 1 && strings.HasSuffix(m.Type.Out(0).String(), "boltvm.Response")
+			out = append(out, MethodInfo{name, m.Name, in, promoted[m.Name] || !resp})
+		}
+	}
+	sort.Slice(out, func(i, j int) bool { return out[i].C+out[i].M < out[j].C+out[j].M })
+	return out
 }
